@@ -45,6 +45,11 @@ def _ctr_rows():
     rows.append(("ctrwrap", 16, 0, 15, 1, 3, 4097, (16,) * 256 + (1,), False))
     rows.append(("ctrwrap", 16, 0, 15, 1, 0, 4096, (64,) * 64, False))
     rows.append(("ctrwrap", 8, 0, 7, 1, 0, 2055, (7,) * 293 + (4,), False))
+    # a counter followed by a suffix (prefix + counter shorter than the block): the limit follows the counter's own width
+    rows.append(("ctrwrap", 16, 0, 7, 1, 0, 4097, (4096, 1), False))
+    rows.append(("ctrwrap", 16, 1, 0, 1, 9, 4112, (4112,), False))
+    rows.append(("ctrwrap", 16, 0, 4, 1, 0, 4096, (4096,), False))
+    rows.append(("ctrwrap", 8, 0, 2, 1, 255, 2049, (1024, 1025), False))
     return rows
 
 
